@@ -55,3 +55,72 @@ class ValueString(FnContract):
 BASE = {c.qual: c for c in (ValueJson(), ValueString())}
 BASE_INLINE = {'value.value_args_validate', 'value.value_boolean', 'value.value_type', 'value.value_round_number',
                'value.value_normalize_datetime', 'value.value_is'}
+
+
+# ---------------------------------------------------------------------------------------------
+# value_compare (C11)
+# ---------------------------------------------------------------------------------------------
+from pyvc.models_loops import LoopSpec                     # noqa: E402
+from . import specs as sp_                                 # noqa: E402
+
+
+class ValueCompare(FnContract):
+    """result = CMP(H, left, right), no effects, no exception (acyclic values)."""
+    qual = 'value.value_compare'
+    result = 'int'
+    frame = 'pure'
+    inline = ('value.value_type', 'value.value_normalize_datetime')
+
+    def H(self, K):
+        return footprint_heap(K)
+
+    def axioms(self, K):
+        H = self.H(K)
+        a, b = K.term(0), K.term(1)
+        return [('CMP-def', sp_.CMP(H, a, b) == sp_.cmp_def(H, a, b))]
+
+    def post(self, K, out):
+        if out.kind != 'return':
+            return [('no-exception', False)]
+        from pyvc.models_ops import int_term
+        r = int_term(K.ip, out.value)
+        return [('is-CMP', r == sp_.CMP(self.H(K), K.term(0), K.term(1))),
+                ('range', z3.And(r >= -1, r <= 1))]
+
+    @property
+    def loop_specs(self):
+        def inv_list(L):
+            H = L.ctx.ghost['K'].heap.term()
+            a, b = L.term('left'), L.term('right')
+            h = L.heap
+            na, nb = h.llen(V.lref(a)), h.llen(V.lref(b))
+            return [('index-range', z3.And(L.k >= 0, z3.Or(L.k <= na, L.k <= nb), z3.Implies(na <= nb, L.k <= na),
+                                           z3.Implies(nb <= na, L.k <= nb))),
+                    ('lex-suffix', sp_.LEX(H, a, b, 0) == sp_.LEX(H, a, b, L.k))]
+
+        def lem_list(L):
+            H = L.ctx.ghost['K'].heap.term()
+            a, b = L.term('left'), L.term('right')
+            return [sp_.LEX(H, a, b, L.k) == sp_.lex_def(H, a, b, L.k)]
+
+        def inv_dict(L):
+            H = L.ctx.ghost['K'].heap.term()
+            a, b = L.term('left'), L.term('right')
+            h = L.heap
+            na, nb = h.dnk(V.dref(a)), h.dnk(V.dref(b))
+            return [('index-range', z3.And(L.k >= 0, z3.Implies(na <= nb, L.k <= na), z3.Implies(nb <= na, L.k <= nb))),
+                    ('dlex-suffix', sp_.DLEX(H, a, b, 0) == sp_.DLEX(H, a, b, L.k))]
+
+        def lem_dict(L):
+            H = L.ctx.ghost['K'].heap.term()
+            a, b = L.term('left'), L.term('right')
+            return [sp_.DLEX(H, a, b, L.k) == sp_.dlex_def(H, a, b, L.k)]
+
+        return {('value.value_compare', 0): LoopSpec(inv_list, heap='unchanged', lemmas=lem_list,
+                                                     header='range(min(len(left), len(right)))'),
+                ('value.value_compare', 1): LoopSpec(inv_dict, heap='unchanged', lemmas=lem_dict,
+                                                     header='range(min(len(left_key_values), len(right_key_values)))')}
+
+
+VALUE_COMPARE = ValueCompare()
+BASE[VALUE_COMPARE.qual] = VALUE_COMPARE
